@@ -423,6 +423,7 @@ def tab_cli(run):
     tab_cli_derive(run)
     tab_cli_derive_name(run)
     tab_cli_derive_when(run, pc)
+    tab_cli_distinct_outputs(run, pc)
     # 5. print xor write per group
     tab_cli_groups(run)
 
@@ -946,6 +947,35 @@ def tab_cli_derive_when(run, pc, R="TAB-cli"):
     run.check(not_printing and unnamed, R, R + "|derive|when", f.loc(ct["span"]), "a name is derived only for a group that is not printed and has no output file name",
               "parse_command derives an output file name %s: a group that only prints would fail with `cannot derive safe output filename` (or get a file it did not ask for)" % (
                   "also for groups that print" if not not_printing else "also for groups that already name their file"))
+
+
+def tab_cli_distinct_outputs(run, pc, R="TAB-cli"):
+    """each output group writes its own file: two groups that would write to the same name (given or derived) are rejected before
+    anything is assembled"""
+    from rules_sym import deep as _deep
+    cands = [pc] + [h for h in (run.prog.fn(t.get("resolved") or "") for _, t in pc.calls() if t.get("resolved_local")) if h is not None and h.id.startswith("driver::")]
+    ok = False
+    for f in cands:
+        for bi, t in f.calls():
+            c = t.get("callee") or ""
+            if c not in ("std::cmp::PartialEq::eq", "std::cmp::PartialEq::ne") or len(t["args"]) != 2:
+                continue
+            ds = [_deep(f, a, 6) for a in t["args"]]
+            if not all(d.endswith(".output_filename") for d in ds) or ds[0] == ds[1]:
+                continue
+            bt = T.bool_test(f, t)
+            if bt is None:
+                # part of a `a && b && ..` chain: the comparison's true edge leads (through the chain) to the rejection
+                reg = set()
+                for e in f.succs(bi):
+                    reg |= T.reach_following_consts(f, e)
+            else:
+                same_edge = bt[0] if c.endswith("eq") else bt[1]
+                reg = T.reach_following_consts(f, same_edge)
+            if report_error_in_region(f, reg) and err_return_in_region(f, reg):
+                ok = True
+    run.check(ok, R, R + "|groups|distinct-files", pc.loc(), "two output groups naming the same file are reported and rejected",
+              "parse_command never compares the output file names of different groups: `customasm prog.asm -f annotated -- -f symbols` derives `prog.txt` twice, writes both outputs to it and exits 0 with the first one lost")
 
 
 def tab_cli_derive_name(run, R="TAB-cli"):
